@@ -682,6 +682,30 @@ MUTANTS.append(dict(prop="C10", name="benign-h2-renamed-locals-and-helper", beni
      "    @staticmethod\n    def _wire_name(header: str | bytes) -> bytes:\n        raw = header.encode() if isinstance(header, str) else header\n        return raw.lower()\n\n    def putheader(self, header: str | bytes, *values: str | bytes) -> None:  # type: ignore[override]\n"),
 ]))
 
+# ---- C13-R7 / R8 on effect rows
+M("C13", "make-request-drops-enforce-option", "connectionpool.py",
+  "                decode_content=decode_content,\n                enforce_content_length=enforce_content_length,\n            )",
+  "                decode_content=decode_content,\n            )", rule="C13-R8")
+M("C13", "response-options-enforce-from-preload", "connection.py",
+  "            enforce_content_length=enforce_content_length,\n        )\n\n        if headers is None:",
+  "            enforce_content_length=preload_content,\n        )\n\n        if headers is None:", rule="C13-R8")
+M("C13", "getresponse-enforce-only-when-preloading", "connection.py",
+  "            enforce_content_length=resp_options.enforce_content_length,",
+  "            enforce_content_length=resp_options.enforce_content_length and resp_options.preload_content,", rule="C13-R8")
+M("C13", "response-forgets-enforce-for-head", "response.py",
+  "        self.enforce_content_length = enforce_content_length\n        self.auto_close = auto_close\n",
+  "        self.enforce_content_length = enforce_content_length and request_method != \"HEAD\"\n        self.auto_close = auto_close\n", rule="C13-R8")
+M("C13", "data-reads-fp-directly", "response.py",
+  "            return self.read(cache_content=True)", "            self._body = self._fp.read()\n            return self._body", rule="C13-R7")
+MUTANTS.append(dict(prop="C13", name="benign-enforce-chain-through-locals-and-positional", benign=True, rule=None, regex=False, edits=[
+    ("connectionpool.py", "                decode_content=decode_content,\n                enforce_content_length=enforce_content_length,\n            )",
+     "                decode_content=decode_content,\n                **{\"enforce_content_length\": enforce_content_length},\n            )"),
+    ("connection.py", "        self._response_options = _ResponseOptions(\n            request_method=method,\n            request_url=url,\n            preload_content=preload_content,\n            decode_content=decode_content,\n            enforce_content_length=enforce_content_length,\n        )",
+     "        enforce = enforce_content_length\n        self._response_options = _ResponseOptions(method, url, preload_content, decode_content, enforce)"),
+    ("response.py", "        if preload_content and not self._body:\n            self._body = self.read(decode_content=decode_content)",
+     "        wants_preload = bool(preload_content)\n        if wants_preload and not self._body:\n            preloaded = self.read(decode_content=decode_content)\n            self._body = preloaded"),
+]))
+
 # --------------------------------------------------------------------------- seeded changes written by independent sub-agents (see /verif/seeded/)
 def S(prop, name, rule=None):
     MUTANTS.append(dict(prop=prop, name="seed:" + name, patch=f"seeded/{prop}-{name}/patch.diff", rule=rule, benign=False))
